@@ -63,7 +63,7 @@ func cmpHeader(h icc.Header, ref refs.RefHeader) string {
 func C16(tier string) {
 	r := ev.Begin("C16", tier, "exploration")
 	r.NotExhaustive()
-	r.Rule("128-byte headers with the acsp signature and an empty tag table: all-zero, all-ones, walking ones and walking zeros over all 1,024 bit positions (on two backgrounds), every byte lane through 0..255 on three backgrounds, all 65,536 values of the two version bytes, every valid value of each date-time component with the others held at two settings, all 16 combinations of flag bits 0/1/30/31; every single-bit and single-byte change of the signature must be rejected; each through a plain byte reader and a 16-byte bufio reader; distinct = distinct header byte strings")
+	r.Rule("128-byte headers with the acsp signature and an empty tag table: all-zero, all-ones, walking ones and walking zeros over all 1,024 bit positions (on two backgrounds), every byte lane through 0..255 on three backgrounds, all 65,536 values of the two version bytes, every valid value of each date-time component with the others held at two settings, all 16 combinations of flag bits 0/1/30/31; every single-bit and single-byte change of the signature must be rejected; each through a plain byte reader and a 16-byte bufio reader; thorough adds all 65,536 values of each of the 64 aligned half-words on two backgrounds; distinct = distinct header byte strings")
 	r.Assume("CreatedAt is compared only when the six date-time numbers form a valid calendar instant (the property quantifies over valid components); an invalid dateTimeNumber must still not disturb any other field")
 	r.Assume("a decoder that reads each field from a fixed byte range is what the walking patterns characterise: every header bit is shown to feed exactly the field ICC.1 assigns it to, on the backgrounds tried")
 	seen := map[string]bool{}
@@ -147,6 +147,18 @@ func C16(tier string) {
 				h := dated(fill)
 				h[pos] = byte(v)
 				try(h, fmt.Sprintf("byte %d = %#02x on %#02x background", pos, v, fill))
+			}
+		}
+	}
+	if tier == "thorough" {
+		// every value of every aligned 16-bit half-word on two backgrounds
+		for hw := 0; hw < 64; hw++ {
+			for v := 0; v < 65536; v++ {
+				for _, fill := range []byte{0, 0xA5} {
+					h := dated(fill)
+					h[2*hw], h[2*hw+1] = byte(v>>8), byte(v)
+					try(h, fmt.Sprintf("half-word %d = %#04x on %#02x background", hw, v, fill))
+				}
 			}
 		}
 	}
